@@ -11,6 +11,10 @@ CODES = c03.CODES
 
 
 def run(ctx):
+    from props import c10 as _c10
+    ctx.stream("rel", _c10.presentation_lines(ctx, "c04-presentations", 30 if ctx.quick else 300, 300 if ctx.quick else 1200),
+               "regularity / TU flags of the decomposition root under many presentations of the same matroid (judge_rel, kind 1)",
+               describe=lambda c: _c10.CODES.get(c, str(c)), nontrivial=lambda l, r: True)
     lines = c03.tree_lines(ctx, "c04")
     ctx.stream("tree", lines, "flags and certificates at every node", describe=lambda c: CODES.get(c, str(c)),
                nontrivial=c03.has_inner, ignore_codes=tuple(c03.STRUCT), keyfn=c03.keyfn)
